@@ -32,6 +32,8 @@ REWRITES = [
     ("R0-attr", re.compile(r"^[ \t]*#\[(?:default|inline|allow\([^\]]*\)|cfg\(any\(test, feature = \"hbs_lms_verif\"\)\)|cfg\(test\))\][ \t]*\n(?:[ \t]*[^\n]*LmsH2[^\n]*\n)?", re.M), "",
      "inert attributes (#[default], #[inline], #[allow]) dropped; cfg(test)/hook-only LmsH2 lines dropped (default build)"),
     ("R7", re.compile(r"panic!\((?:[^()]|\([^()]*\))*\)"), "vpanic()", "panic!(..) -> vpanic() whose precondition is false: reaching it is a failed obligation"),
+    ("R9-qualified", re.compile(r"\b(?:crate::)?(?:hss::)?(lm_ots|lms|hss)::verify::(verify|generate_public_key_candidate)\b"), r"\1_\2",
+     "same-named functions of different modules get the module as prefix: lms::verify::verify -> lms_verify (definitions renamed with @opt rename)"),
     ("R9-flatten", re.compile(r"\b(?:crate::)?(?:(?:lm_ots|lms|hss|util|constants|hasher|signing|verify|definitions|parameters|parameter|keygen|helper|coef|aux|reference_impl_private_key|seed_derive|super)::)+(?=[A-Za-z_])"), "",
      "crate-internal module paths flattened (single-file Verus): lm_ots::signing::X -> X"),
     ("R5", re.compile(r"H::OUTPUT_SIZE\.into\(\)"), r"(H::OUTPUT_SIZE as usize)", "H::OUTPUT_SIZE.into() -> H::OUTPUT_SIZE as usize (lossless widening)"),
@@ -76,6 +78,8 @@ def parse_vspec(path):
             cur["after"].append((target, text))
         elif mode == "loop" and cur is not None:
             cur["loops"].append((int(target), text))
+        elif mode == "loopstart" and cur is not None:
+            cur.setdefault("loopstarts", []).append((int(target), text))
         buf = []
         mode = None
         target = None
@@ -134,7 +138,12 @@ def parse_vspec(path):
                         raise Undecided("bad @item line in %s: %s" % (path, line))
                     cur = {"file": m.group(1), "kind": m.group(2), "name": m.group(3), "impl": (m.group(4) or "").strip() or None,
                            "sig": "", "before": [], "after": [], "loops": [], "opts": {}}
-                    u.items.append(cur)
+                    dup = [j for j in u.items if j["file"] == cur["file"] and j["name"] == cur["name"] and j["impl"] == cur["impl"]
+                           and j.get("imported_from")]
+                    if dup:
+                        u.items[u.items.index(dup[0])] = cur   # own contract replaces the imported (assumed) one
+                    else:
+                        u.items.append(cur)
                 elif key == "@opt" and cur is not None:
                     k, _, v = arg.partition("=")
                     cur["opts"][k.strip()] = v.strip()
@@ -151,6 +160,9 @@ def parse_vspec(path):
                     target = arg
                 elif key == "@loop":
                     mode = "loop"
+                    target = arg.strip()
+                elif key == "@loopstart":
+                    mode = "loopstart"
                     target = arg.strip()
                 elif key == "@end":
                     cur = None
@@ -283,9 +295,19 @@ def cut_item(file_rel, kind, name, impl=None, repo=None):
         if len(ms) != 1:
             raise Undecided("lost anchor: fn %s in %s%s matches %d times" % (name, file_rel, " (%s)" % impl if impl else "", len(ms)))
         m = ms[0]
-        ob = clean.find("{", m.end())
-        semi = clean.find(";", m.end())
-        if ob < 0 or (0 <= semi < ob):
+        ob, depth = -1, 0
+        for j in range(m.end(), len(clean)):
+            ch = clean[j]
+            if ch in "([":
+                depth += 1
+            elif ch in ")]":
+                depth -= 1
+            elif depth == 0 and ch == "{":
+                ob = j
+                break
+            elif depth == 0 and ch == ";":
+                break
+        if ob < 0:
             raise Undecided("fn %s has no body" % name)
         cb = _match_brace(clean, ob)
         sig = src[m.start():ob].rstrip()
@@ -404,6 +426,9 @@ def render_fn(item, cut, counts):
             rt = rt[:mw.start()].strip()
         sig = sig[:m.start()] + ") -> (%s: %s)%s" % (rname, rt, where)
         counts["R0-name-result"] = counts.get("R0-name-result", 0) + 1
+    if "rename" in opts:
+        sig, n = re.subn(r"\bfn\s+%s\b" % re.escape(item["name"]), "fn " + opts["rename"], sig, count=1)
+        counts["R9-rename-def"] = counts.get("R9-rename-def", 0) + n
     if "sigsub" in opts:
         # @opt sigsub=/regex/replacement/   (declared, counted rewrite of the signature, e.g. pub(crate) -> pub)
         _, rx, rep, _ = opts["sigsub"].split("/", 3)
@@ -417,6 +442,10 @@ def render_fn(item, cut, counts):
         if k >= len(heads):
             raise Undecided("lost anchor: loop %d of fn %s (body has %d loops)" % (k, item["name"], len(heads)))
         inserts.append((heads[k][1], "\n" + text + "\n"))
+    for k, text in item.get("loopstarts", []):
+        if k >= len(heads):
+            raise Undecided("lost anchor: loop %d of fn %s (body has %d loops)" % (k, item["name"], len(heads)))
+        inserts.append((heads[k][1] + 1, "\n/*@hint-begin*/\n" + text + "\n/*@hint-end*/\n"))
     for anchor, text in item["before"]:
         if anchor == "@@START":
             inserts.append((1, "\n/*@hint-begin*/\n" + text + "\n/*@hint-end*/\n"))
@@ -436,6 +465,16 @@ def render_fn(item, cut, counts):
         body = body[:pos] + text + body[pos:]
     body = apply_rewrites(body, counts)
     sig = apply_rewrites(sig, counts)
+    for key in sorted(k for k in opts if k.startswith("bodysub")):
+        # @opt bodysub=|regex|replacement| : declared per-item rewrite (type annotations, ==/!= on derived PartialEq), counted
+        sep = opts[key][0]
+        _, rx, rep, _ = opts[key].split(sep, 3)
+        body, n = re.subn(rx, rep, body)
+        if n != 1:
+            raise Undecided("lost anchor: %s %r matched %d times in fn %s" % (key, rx, n, item["name"]))
+        counts["R10-declared-bodysub"] = counts.get("R10-declared-bodysub", 0) + n
+    if opts.get("external_body"):
+        body = "{ unimplemented!() } // body not part of this unit (assumed contract)"
     spliced = sig + "\n" + (item["sig"] + "\n" if item["sig"].strip() else "") + body
     return spliced
 
@@ -449,6 +488,8 @@ def generate(u, repo=None):
         cut = cut_item(it["file"], it["kind"], it["name"], it["impl"], repo)
         if it["kind"] == "fn":
             text = render_fn(it, cut, counts)
+            if it["opts"].get("external_body"):
+                text = "#[verifier::external_body] // contract assumed in this unit (see DESIGN: proved by the Kani pair)\n" + text
             if it.get("imported_from"):
                 text = "#[verifier::external_body] // contract proved in unit %s\n" % it["imported_from"] + text
         else:
@@ -511,10 +552,11 @@ def fn_ranges(text):
     return res
 
 
-HINT_KINDS = ("assertion failed", "bitvector assertion not satisfied", "invariant not satisfied at end of loop body",
+HINT_KINDS = ("assertion failed", "bitvector assertion not satisfied",
               "Resource limit", "rlimit", "assertion not satisfied", "requires not satisfied", "decreases not satisfied")
 CONTRACT_KINDS = ("postcondition not satisfied", "precondition not satisfied", "possible arithmetic underflow/overflow",
                   "possible division by zero", "index out of bounds", "invariant not satisfied before loop",
+                  "invariant not satisfied at end of loop body",
                   "possible bit shift underflow/overflow", "recommendation not met", "slice", "unwrap", "panic", "unreachable",
                   "possible underflow", "possible overflow", "expect")
 
